@@ -161,20 +161,24 @@ SLICES = {
               "flip": {"quick": 0, "thorough": 0}},
     "proof_adv": {"module": "MC_proof", "invariants": ["C03", "C04", "Refines", "Export"],
                   "consts": {"quick": {"K": 3, "Dev": "{}", "MechBound": 99, "MaxL": 2, "Rich": "FALSE", "Mode": '"adv"'},
-                             "thorough": {"K": 4, "Dev": "{}", "MechBound": 99, "MaxL": 3, "Rich": "FALSE", "Mode": '"adv"'}},
+                             "thorough": {"K": 4, "Dev": "{}", "MechBound": 99, "MaxL": 2, "Rich": "TRUE", "Mode": '"adv"'}},
                   "flip": {"quick": 41, "thorough": 3}},
     "update": {"module": "MC_update", "invariants": ["C01", "C02", "C12", "C12scn", "Refines", "Export"],
                "consts": {"quick": {"K": 3, "Dev": "{}", "MechBound": 99, "MaxL": 2, "Depth": 2, "CrossSuite": "FALSE"},
-                          "thorough": {"K": 4, "Dev": "{}", "MechBound": 99, "MaxL": 2, "Depth": 3, "CrossSuite": "TRUE"}},
+                          "thorough": {"K": 4, "Dev": "{}", "MechBound": 99, "MaxL": 2, "Depth": 2, "CrossSuite": "TRUE"}},
                "flip": {"quick": 0, "thorough": 0}},
+    "update_deep": {"module": "MC_update", "invariants": ["C01", "C02", "C12", "C12scn", "Refines", "Export"],
+                    "consts": {"quick": {"K": 2, "Dev": "{}", "MechBound": 99, "MaxL": 1, "Depth": 3, "CrossSuite": "FALSE"},
+                               "thorough": {"K": 3, "Dev": "{}", "MechBound": 99, "MaxL": 1, "Depth": 4, "CrossSuite": "FALSE"}},
+                    "flip": {"quick": 0, "thorough": 0}},
     "blind": {"module": "MC_blind", "invariants": ["C05", "C06", "C02", "C04", "Refines", "Export"],
               "consts": {"quick": {"K": 3, "Dev": "{}", "MechBound": 99, "MaxL": 1, "MaxM": 1, "Mode": '"honest"'},
                          "thorough": {"K": 4, "Dev": "{}", "MechBound": 99, "MaxL": 2, "MaxM": 2, "Mode": '"honest"'}},
               "flip": {"quick": 0, "thorough": 0}},
     "blind_adv": {"module": "MC_blind", "invariants": ["C05", "C06", "C02", "C04", "Refines", "Export"],
                   "consts": {"quick": {"K": 3, "Dev": "{}", "MechBound": 99, "MaxL": 1, "MaxM": 1, "Mode": '"adv"'},
-                             "thorough": {"K": 4, "Dev": "{}", "MechBound": 99, "MaxL": 2, "MaxM": 2, "Mode": '"adv"'}},
-                  "flip": {"quick": 41, "thorough": 3}},
+                             "thorough": {"K": 4, "Dev": "{}", "MechBound": 99, "MaxL": 2, "MaxM": 1, "Mode": '"adv"'}},
+                  "flip": {"quick": 41, "thorough": 5}},
     "protocol": {"module": "MC_protocol", "invariants": ["C05", "C06", "Refines", "NoMixAndMatch", "NoReplay", "Unlinkable", "Export"],
                  "constraint": "NetBound", "view": "PView",
                  "consts": {"quick": {"K": 2, "Dev": "{}", "MechBound": 99, "Holders": "{1, 2}", "MaxNet": 4},
@@ -247,7 +251,7 @@ PROPS = {
             "level_text": CLTXT + "C18: invariant C18toy (for every pair of safe primes below the bound the accept conditions of random_qr and of the commitment-key bases imply well-formedness); facts about generated keys computed by an independent Miller-Rabin / Jacobi implementation; encodings; random_bits / rand_int."},
     "C19": {"kind": "cl", "title": "CL03 responses mask their secrets",
             "level_text": CLTXT + "C19: invariant C19masks over the table of blinding lengths for the three suites; for real proofs every response leaf is divided by every recomputable challenge and by every other response and compared with every secret the prover holds."},
-    "C12": {"slices": ["update", "shape_sig"], "traces": "sig", "tally": ["C12", "C02", "C01"], "title": "Signature update over any history",
+    "C12": {"slices": ["update", "shape_sig"], "slices_thorough": ["update_deep"], "traces": "sig", "tally": ["C12", "C02", "C01"], "title": "Signature update over any history",
             "level_text": MC_TEXT + "slice `update`: every history of up to Depth updates at every position with every new value, with correct and wrong old values, out-of-range positions, then verification against the intended current vector and every earlier vector; updated signature octets equal the reference's B(msgs)/(sk+e)."},
 }
 
@@ -380,7 +384,7 @@ def run_property(prop, tier):
     distinct = 0
     samples = []
     drift = []
-    for name in spec["slices"]:
+    for name in spec["slices"] + (spec.get("slices_thorough", []) if tier == "thorough" else []):
         res, cases = run_slice(name, tier, prop)
         slices_ev.append(res)
         tot_states += res["stats"]["distinct"]
@@ -818,7 +822,7 @@ def run_cl_property(prop, tier):
         for m in re.finditer(r'^<<"CASE", "(.*)">>$', out, re.M):
             f.write(json.loads('"' + m.group(1) + '"') + "\n")
     # --- implementation -> specification: driver logs
-    suites = [("1024", 2 if tier == "quick" else 6)] + ([("2048", 2)] if tier == "thorough" else [])
+    suites = [("1024", 2 if tier == "quick" else 4)] + ([("2048", 2)] if tier == "thorough" else [])
     nev = 0
     samples = []
     logs = []
@@ -826,7 +830,7 @@ def run_cl_property(prop, tier):
     for suite, nkeys in suites:
         for drv in spec["drivers"]:
             raw = os.path.join(BUILD, "cl_%s_%s_%s_%s.ndjson" % (prop, drv, suite, tier))
-            cmd = [ZKVCL, drv, raw, "--keys", str(nkeys), "--suite", suite, "--leaf-stride", "13" if tier == "quick" else "1"]
+            cmd = [ZKVCL, drv, raw, "--keys", str(nkeys), "--suite", suite, "--leaf-stride", "13" if tier == "quick" else ("3" if suite == "1024" else "29")]
             if tier == "thorough" and suite == "1024":
                 cmd.append("--thorough")
             if drv == "sig" and os.path.getsize(derivs) > 0:
